@@ -26,6 +26,8 @@ define_language! {
         C1() = "c1",
         W(AppliedId) = "w",
         P(AppliedId, AppliedId) = "p",
+        T3(AppliedId, AppliedId, AppliedId) = "t3",
+        Q2(Slot, AppliedId) = "q2",
         Lam(Bind<AppliedId>) = "lam",
         Let(Bind<AppliedId>, AppliedId) = "let",
         Sum2(AppliedId, Bind<Bind<AppliedId>>) = "sum2",
@@ -186,6 +188,8 @@ impl LangId {
                     op("lam", &[Kid(1)]),
                     op("let", &[Kid(1), Kid(0)]),
                     op("sum2", &[Kid(0), Kid(2)]),
+                    op("t3", &[Kid(0), Kid(0), Kid(0)]),
+                    op("q2", &[SlotF, Kid(0)]),
                 ],
             },
             LangId::Lambda => LangSig {
